@@ -102,6 +102,112 @@ Proof.
   - intro H. inversion H; subst. vm_compute in H3. discriminate.
 Qed.
 
+(* ------------------------------------------------------------------ the level-wise code paths *)
+
+(* every level selects distinct in-range entries of the array it indexes (no aliasing), and the value
+   has the size of the innermost sub-array *)
+Fixpoint levels_ok (n : nat) (shape : list Z) (chain : list level) (m : nat) : Prop :=
+  match chain with
+  | [] => n = m
+  | lv :: r =>
+      match om_index shape (fst lv) (snd lv) with
+      | None => False
+      | Some q => NoDup (fst q) /\ (forall p, In p (fst q) -> 0 <= p < Z.of_nat n) /\
+                  levels_ok (length (fst q)) (snd q) r m
+      end
+  end.
+
+Lemma pick_length : forall A (d : A) a sel, length (pick d a sel) = length sel.
+Proof. intros. unfold pick. apply map_length. Qed.
+
+Lemma through_roundtrip : forall chain s shape vals,
+  levels_ok (length s) shape chain (length vals) ->
+  exists s', set_through s shape chain vals = Some s' /\ length s' = length s /\
+             get_through s' shape chain = Some vals.
+Proof.
+  induction chain as [|lv r IH]; intros s shape vals H; cbn [levels_ok set_through] in *.
+  - exists vals. repeat split; auto.
+  - destruct (om_index shape (fst lv) (snd lv)) as [q|] eqn:O; [|tauto].
+    destruct H as [ND [R L]].
+    specialize (IH (pick 0%Q s (fst q)) (snd q) vals).
+    rewrite pick_length in IH. destruct (IH L) as [sub' [S [Ls G]]].
+    rewrite S. eexists. split; [reflexivity|]. split. apply scatterz_length.
+    unfold get_through. cbn [apply_chain]. unfold apply_level. cbn [fst snd]. rewrite O.
+    rewrite scatterz_pick; auto; try exact G; try (rewrite Ls; apply pick_length).
+Qed.
+
+(* set_val(name, v, units, indices) followed by get_val(name, units, indices) returns v, through
+   the code's own level-by-level read / write-back, for every chain without aliasing *)
+Theorem set_get_roundtrip_through : forall a shape chain ua us vals,
+  levels_ok (length a) shape chain (length vals) ->
+  ~ (uf ua == 0)%Q -> ~ (uf us == 0)%Q ->
+  Forall2 Qeq (do_get (do_set a shape chain ua us vals) shape chain us ua) vals.
+Proof.
+  intros a shape chain ua us vals H Na Ns. unfold do_get, do_set.
+  assert (H' : levels_ok (length a) shape chain (length (map (conv ua us) vals)))
+    by (rewrite map_length; auto).
+  destruct (through_roundtrip chain a shape _ H') as [s' [S [_ G]]].
+  rewrite S, G. apply map_conv_inverse; auto.
+Qed.
+
+(* entries outside the first level's selection keep their value *)
+Theorem through_frame : forall s shape lv r vals s' q p,
+  set_through s shape (lv :: r) vals = Some s' ->
+  om_index shape (fst lv) (snd lv) = Some q ->
+  0 <= p -> (forall x, In x (fst q) -> 0 <= x) -> ~ In p (fst q) ->
+  nth (Z.to_nat p) s' 0%Q = nth (Z.to_nat p) s 0%Q.
+Proof.
+  intros s shape lv r vals s' q p H O Hp Hq Hn. cbn [set_through] in H. rewrite O in H.
+  destruct (set_through (pick 0%Q s (fst q)) (snd q) r vals); inv H.
+  apply scatterz_frame; auto.
+Qed.
+
+(* repeated positions: the LAST occurrence wins *)
+Lemma scatterz_last_wins : forall P s vals k,
+  length vals = length P -> (k < length P)%nat ->
+  (forall p, In p P -> 0 <= p < Z.of_nat (length s)) ->
+  (forall j, (k < j < length P)%nat -> nth j P 0 <> nth k P 0) ->
+  nth (Z.to_nat (nth k P 0)) (scatterz s P vals) 0%Q = nth k vals 0%Q.
+Proof.
+  induction P as [|p P IH]; intros s vals k L K R Last; cbn in K; try lia.
+  destruct vals as [|x vals]; cbn in L; try lia. cbn [scatterz].
+  destruct k; cbn [nth].
+  - rewrite scatterz_frame.
+    + apply set_nth_same. assert (0 <= p < Z.of_nat (length s)) by (apply R; left; auto). lia.
+    + assert (0 <= p < Z.of_nat (length s)) by (apply R; left; auto). lia.
+    + intros q Hq. assert (0 <= q < Z.of_nat (length s)) by (apply R; right; auto). lia.
+    + intro Hin. apply In_nth with (d := 0) in Hin as [j [Hj Ej]].
+      apply (Last (S j)). cbn. lia. cbn. auto.
+  - apply IH; try lia.
+    + intros q Hq. rewrite set_nth_length. apply R. right; auto.
+    + intros j Hj. apply (Last (S j)). cbn. lia.
+Qed.
+
+(* an input that reads one source entry twice (src_indices=[0,0]): setting its first entry is
+   undone by the write-back of the second alias, so the round trip fails although the user's own
+   position is a single one; the no-aliasing premise of the round trip is necessary *)
+Example alias_last_wins :
+  let u := mkunit 1 0 in
+  let chain := [(true, I1 (IArr [0; 0])); (true, I1 (IInt 0))] in
+  do_set [5; 6]%Q [2] chain u u [9]%Q = [5; 6]%Q /\
+  do_get (do_set [5; 6]%Q [2] chain u u [9]%Q) [2] chain u u = map (conv u u) [5]%Q.
+Proof. vm_compute. split; reflexivity. Qed.
+
+Example ex_levels_ok :
+  levels_ok 6 [2; 3] [(false, I1 (IInt (-1))); (true, I1 (IArr [2; 0]))] 2.
+Proof.
+  cbn [levels_ok fst snd].
+  replace (om_index [2; 3] false (I1 (IInt (-1)))) with (Some ([3; 4; 5], [3])) by (vm_compute; reflexivity).
+  cbn [fst snd length].
+  replace (om_index [3] true (I1 (IArr [2; 0]))) with (Some ([2; 0], [2])) by (vm_compute; reflexivity).
+  cbn [fst snd length].
+  split; [|split; [|split; [|split]]]; auto.
+  - repeat constructor; cbn; intuition lia.
+  - intros p Hp; cbn in Hp; intuition lia.
+  - repeat constructor; cbn; intuition lia.
+  - intros p Hp; cbn in Hp; intuition lia.
+Qed.
+
 (* ------------------------------------------------------------------ phase independence *)
 
 Lemma current_final : forall c, current (c_final c) = current c.
